@@ -284,6 +284,11 @@ class Ref:
             x = z - nu
             # mix in points near x = 0 and neighbours of representable values
             x[: n // 8] = nu * 10.0 ** rng.uniform(-8, 3, size=n // 8)
+            if nm == "Reciprocal":
+                # ... and far out, where the square of the shifted argument is no longer
+                # a double while the derivative 1 / z^2 still is (z up to 1e158)
+                x = np.concatenate([x, 10.0 ** rng.uniform(154.2, 158.0, size=max(2, n // 10))
+                                    - nu])
             if whole_domain or nm == "Reciprocal":
                 # (Reciprocal: forward and Jacobian share the domain x + nu > 0, whatever
                 # the mininu option)
@@ -382,7 +387,7 @@ class Ref:
                                              np.exp((lam - 1) * np.log1p(np.abs(w))),
                                              np.exp((1 - lam) * np.log1p(np.abs(w))))
             if nm == "Reciprocal":
-                return 1.0 / (x + p["nu"]) ** 2
+                return 1.0 / (x + p["nu"]) / (x + p["nu"])     # (no overflow of z * z)
             if nm == "Sinh":
                 u = (x - p["nu"]) * p["scale"]
                 return p["scale"] / np.hypot(1.0, u)        # (no overflow of u * u)
